@@ -783,13 +783,44 @@ FRESH = [
 _DECL = {"TYPE": "userTypes", "ENUM": "userEnums", "SERVER": "servers", "TAG": "tags", "MACRO": None}
 
 
-def c20(chk, tier):
-    """fresh declarations appended to / inserted into accepted fixtures; top-level declarations of a fixture whose name
-    occurs nowhere else removed"""
+def _mirror_blocks(fx, rnd, count):
+    """fresh methods whose paths repeat the shape of paths the document already has - same segments, same places of the
+    parameters - under a first segment of their own and with parameter names of their own: unrelated to every existing
+    path, however similar they look"""
+    import json
+    try:
+        inter = json.loads(fx.obs["json"]).get("interactions") or {}
+    except (ValueError, KeyError):
+        return []
+    paths = sorted({v.get("path", "") for v in inter.values() if v.get("protocol", "http") == "http" and "{" in v.get("path", "")})
+    rnd.shuffle(paths)
+    res = []
+    for k, p in enumerate(paths[:count]):
+        segs = [x for x in p.split("/") if x != ""]
+        if len(segs) < 2 or not all(re.match(r"^[A-Za-z0-9_.{}-]+$", x) for x in segs):
+            continue
+        n = 0
+        out = ["vfmirror%d" % k]
+        for x in segs[1:] if not segs[0].startswith("{") else segs:
+            if x.startswith("{") and x.endswith("}"):
+                n += 1
+                out.append("{vfm%d}" % n)
+            else:
+                out.append(x)
+        if n == 0:
+            continue
+        path = "/" + "/".join(out)
+        res.append(("GET", ["GET %s // mirror" % path, "  200 any"], [("interactions", "http GET " + path), ("tags", "@vfmirror%d" % k)]))
+    return res
+
+
+def c20(chk, tier, extra=None):
+    """fresh declarations appended to / inserted into accepted fixtures (and, extra, generated documents); top-level
+    declarations whose name occurs nowhere else removed"""
     import json
     import c20 as C20
     thorough = tier == "thorough"
-    fxs = load(tier, want_ok=True, limit=None if thorough else 160, salt=20)
+    fxs = load(tier, want_ok=True, limit=None if thorough else 160, salt=20) + [f for f in (extra or []) if f.obs["outcome"] == "ok"]
     rnd = random.Random(seed() * 31 + 20)
     cases, meta = [], {}
     for n, fx in enumerate(fxs):
@@ -799,7 +830,8 @@ def c20(chk, tier):
         if b"vfFresh" in alltext or b"vffresh" in alltext:
             continue
         tb = top_blocks(fx) if len(fx.files) == 1 else None
-        for j, (kind, lines, keys) in enumerate(FRESH if thorough else rnd.sample(FRESH, 3)):
+        fresh = (FRESH if thorough else rnd.sample(FRESH, 3)) + _mirror_blocks(fx, rnd, 3 if thorough else 1)
+        for j, (kind, lines, keys) in enumerate(fresh):
             blk = fx.nl.join(x.encode() for x in lines) + fx.nl
             where = "end"
             data = fx.data + blk
